@@ -439,6 +439,41 @@ pub mod sym {
             128
         }
     }
+    /// n-way choice point (used for map iteration orders): forks n-1 children, each path continues with its own index.
+    pub fn choose(n: usize) -> usize {
+        if n <= 1 {
+            return 0;
+        }
+        let shr = sh();
+        for k in 0..n - 1 {
+            if shr.leaves.load(AO::SeqCst) >= shr.max_leaves.load(AO::SeqCst) {
+                shr.capped.fetch_add(1, AO::SeqCst);
+                unsafe { libc::_exit(0) }
+            }
+            shr.forks.fetch_add(1, AO::Relaxed);
+            shr.decisions.fetch_add(1, AO::Relaxed);
+            let pid = unsafe { libc::fork() };
+            if pid < 0 {
+                eprintln!("SYMX: fork failed");
+                unsafe { libc::_exit(3) }
+            }
+            if pid == 0 {
+                with(|s| s.trail.push_str(&format!("<{k}>")));
+                return k;
+            }
+            let mut status = 0;
+            unsafe { libc::waitpid(pid, &mut status, 0) };
+            if !(libc::WIFEXITED(status) && libc::WEXITSTATUS(status) == 0) {
+                shr.child_fail.fetch_add(1, AO::SeqCst);
+                let code = if libc::WIFEXITED(status) { libc::WEXITSTATUS(status) } else { 3 };
+                eprintln!("SYMX: child path failed (status {status})");
+                unsafe { libc::_exit(if code == 2 { 2 } else { 3 }) }
+            }
+        }
+        with(|s| s.trail.push_str(&format!("<{}>", n - 1)));
+        n - 1
+    }
+
     pub fn reset_counters() {
         let s = sh();
         for a in [
